@@ -268,6 +268,14 @@ TEARDOWNS = [
     ("logged-then-quit", ["USER foo", "PASS pw", "QUIT"], None),
     ("relogin-then-vanish", ["USER foo", "PASS pw", "USER foo"], "vanish"),
     ("pasv-then-vanish", ["USER foo", "PASS pw", "EPSV"], "vanish"),
+    # sessions that ASKED about things they never had (a transfer before any PASV/EPSV is answered 503, a rename target
+    # before RNFR, ABOR with nothing running ...) and then end in each way
+    ("transfer-without-passive-then-quit", ["USER foo", "PASS pw", "LIST", "QUIT"], None),
+    ("transfer-without-passive-then-vanish", ["USER foo", "PASS pw", "RETR /pa/f.txt", "MLSD"], "vanish"),
+    ("transfer-without-passive-then-close", ["USER foo", "PASS pw", "STOR /t9", "APPE /t9"], "close"),
+    ("rnto-abor-rest-without-anything-then-quit", ["USER foo", "PASS pw", "RNTO x", "ABOR", "REST 3", "QUIT"], None),
+    ("passive-never-connected-then-quit", ["USER foo", "PASS pw", "EPSV", "LIST", "QUIT"], None),
+    ("passive-twice-then-close", ["USER foo", "PASS pw", "PASV", "EPSV"], "close"),
 ]
 
 
